@@ -216,7 +216,9 @@ Record econfig := mkC {
   c_init_size : nat;          (* initial.max_size *)
   c_fuel : nat;               (* bound on loop iterations used ONLY when no generation limit is configured *)
   c_individuals : list hsol;  (* initial.individuals (with_init_solutions) *)
-  c_track : nat               (* TelemetryMode::OnlyMetrics { track_population } *)
+  c_track : nat;              (* TelemetryMode::OnlyMetrics { track_population } *)
+  c_legacy_stop : bool        (* false = the code as it is; true = EvolutionSimulator::run BEFORE the repair of finding C07-F2 (/repo commit
+                                 2c5dd99): the two stop tests of the initial phase were applied to an EMPTY population too *)
 }.
 
 Record oracles := mkO {
@@ -244,6 +246,8 @@ Definition cfg_terms (cfg : econfig) : list term :=
   terminations (c_max_gen cfg) (c_max_time cfg) (c_min_cv cfg) (c_target cfg)
   ++ match c_user_term cfg with Some l => [TUser l] | None => [] end.
 
+Definition nonempty {A} (l : list A) : bool := match l with [] => false | _ => true end.
+
 (* EvolutionSimulator::run, first fold: initial.individuals.take(max_size), each handed to ctx.on_initial *)
 Definition seeded (cfg : econfig) : list hsol := firstn (c_init_size cfg) (c_individuals cfg).
 Definition seed (cfg : econfig) (st : estate) : estate :=
@@ -254,6 +258,12 @@ Definition seed (cfg : econfig) (st : estate) : estate :=
 Definition init_operator (cfg : econfig) (W : oracles) (idx : nat) : nat :=
   if idx <? c_init_ops cfg then idx else o_weighted W idx.
 
+(* `let has_solution = heuristic_ctx.ranked().next().is_some();
+    if has_solution && (is_initial_quota_reached || is_overall_termination) { return Err(()) }`:
+   at least one solution is built; the stop tests apply only once the population holds one *)
+Definition initial_stops (cfg : econfig) (pop : list hsol) (is_initial_quota_reached is_overall_termination : bool) : bool :=
+  (c_legacy_stop cfg || nonempty pop) && (is_initial_quota_reached || is_overall_termination).
+
 Fixpoint initial (n idx : nat) (cfg : econfig) (W : oracles) (q : quota) (st : estate) : option estate :=
   match n with
   | O => Some st
@@ -262,7 +272,7 @@ Fixpoint initial (n idx : nat) (cfg : econfig) (W : oracles) (q : quota) (st : e
     let '(is_overall_termination, tp) := is_termination (cfg_terms cfg) gen (o_time W) (o_other W) (s_tpolls st) in
     let is_initial_quota_reached := est_exceeds (cfg_terms cfg) gen (o_init_quota W idx) in
     let log1 := s_log st ++ [EvTerm gen is_overall_termination; EvEstimate gen] in
-    if is_initial_quota_reached || is_overall_termination
+    if initial_stops cfg (s_pop st) is_initial_quota_reached is_overall_termination
     then Some (mkS (s_pop st) (s_tele st) (s_polls st) tp (s_iters st) log1)
     else
       let op := init_operator cfg W idx in
@@ -293,8 +303,6 @@ Fixpoint offspring (g j : nat) (parents : list nat) (cfg : econfig) (W : oracles
       end
     end
   end.
-
-Definition nonempty {A} (l : list A) : bool := match l with [] => false | _ => true end.
 
 (* the body of Iterative::run's loop after the termination / quota test:
      parents = ctx.selected().collect();
@@ -422,7 +430,7 @@ Definition skip_oracles (init_polls : nat) (gen_polls : list nat) : oracles :=
 
 Definition run_evolve_cfg (max_gen : nat) (max_time : bool) (min_cv : option (bool * nat)) (target : bool)
            (init_polls : nat) (gen_polls : list nat) (k : option nat) : nat * nat * nat * nat * nat :=
-  let cfg := mkC [] 1 (Some max_gen) max_time min_cv target None 4 4 0 [] 1 in
+  let cfg := mkC [] 1 (Some max_gen) max_time min_cv target None 4 4 0 [] 1 false in
   let q : quota := fun n => counting_quota k (n + init_polls) in
   match evolve cfg (skip_oracles init_polls gen_polls) q with
   | EOk _ st => (0, gens_run (s_tele st), t_metric_gens (s_tele st), length (t_evolution (s_tele st)), s_polls st + init_polls)
@@ -472,7 +480,7 @@ Definition run_loop (max_gen user_term : option nat) (max_time : bool) (init_ops
            (time iq : list bool) (weighted gen_polls parents : list nat) (inner : list bool) (mult : list nat) (exploit : list bool)
            (diverse : list nat) (k : option nat)
   : nat * ((nat * nat * nat) * list nat * nat * nat * list (nat * nat * nat * nat)) :=
-  let cfg := mkC [] 1 max_gen max_time None false user_term init_ops init_size fuel (repeat (init []) individuals) track in
+  let cfg := mkC [] 1 max_gen max_time None false user_term init_ops init_size fuel (repeat (init []) individuals) track false in
   let q : quota := fun n => counting_quota k (n + init_polls) in
   let W := loop_oracles time iq weighted gen_polls parents inner mult exploit diverse in
   let obs := fun st : estate => ((gens_run (s_tele st), s_iters st, t_metric_gens (s_tele st)), t_evolution (s_tele st),
